@@ -200,9 +200,9 @@ def transcription_check(ctx, scratch):
 
 
 def api_half(ctx):
-    """HOOK for the integrator: the insert_/define_/new_ visibility half of C05 (Interp model, gen-driver
-    transcripts; DESIGN.md C05 `insert_visible`, `define_existing`, `define_fresh`, `new_distinct`) goes here."""
-    pass
+    """insert_/define_/new_ visibility half: see checks/c05_api.py."""
+    import c05_api
+    c05_api.api_half(ctx)
 
 
 # ------------------------------------------------------------------------------------------- sequences
@@ -558,7 +558,7 @@ def run(ctx):
                        "equalities applied by close() reach the union-find only through equate_<sort> (C01-C03 cover close)",
                        "member sorts (new_<sort>_internal(parent)) differ from the transcribed text by the membership insert only; "
                        "tuple tables are outside this half",
-                       "the insert_/define_/new_ visibility half of C05 is not checked here (api_half hook)"]
+                       "the insert_/define_/new_ visibility half is observed on generated programs (checks/c05_api.py) and proved for the models of coq/Coherent (C04_insert_rows, C04_holds_iff_iter) and coq/Engine (C02_define_no_dup_partial)"]
     ok, _ = ctx.coq_build("UF")
     if ok:
         ctx.coq_props("UF", "Props_C05.v", required=REQUIRED)
